@@ -117,7 +117,10 @@ class Evaluator:
         """ref node -> ('cell', key) or ('rect', b, s, c1, r1, c2, r2, clipped)"""
         k = node[0]
         if k == 'name':
-            return self.resolve(self.desc['names'][node[1]])
+            target = self.desc['names'][node[1]]
+            if target[0] == 'val':
+                return ('value', self.eval(target[2], None))
+            return self.resolve(target)
         if k == 'cell':
             return ('cell', tuple(node[1:5]))
         if k == 'rng':
@@ -139,6 +142,8 @@ class Evaluator:
             return xl.c_err(t[1])
         if k in ('cell', 'rng', 'row', 'col', 'name'):
             r = self.resolve(t)
+            if r[0] == 'value':
+                return r[1]
             if r[0] == 'cell':
                 return self.raw(r[1])
             return self.rect(*r[1:])
@@ -181,7 +186,11 @@ class Evaluator:
         for a in args:
             if a[0] in ('cell', 'rng', 'row', 'col', 'name'):
                 r = self.resolve(a)
-                if r[0] == 'cell':
+                if r[0] == 'value':
+                    if r[1] is UNKNOWN or isinstance(r[1], list):
+                        return UNKNOWN
+                    out.append((r[1], False))
+                elif r[0] == 'cell':
                     v = self.raw(r[1])
                     if v is UNKNOWN:
                         return UNKNOWN
